@@ -40,7 +40,7 @@ META = {
 
 MANIFEST = {
     "technique": "runtime post-conditions on the real time_utils functions (all call sites) vs integer/Fraction arithmetic; exhaustive windows of consecutive milliseconds around calendar boundaries + uniform sampling; round-trip and monotonicity checkers",
-    "level_text": "Every ms in +-200 ms (quick) / +-2000 ms (thorough) around epoch 0, all 301 New Years 1900..2200, leap-day boundaries and sampled day/second boundaries is converted both ways through the real functions (exhaustive per window), plus 10^5/10^6 uniform instants, all microsecond phases of 2 ms windows, formatted strings in all supported spellings and decimal-year triples; each call is checked against an integer-arithmetic oracle.",
+    "level_text": "Every ms in +-200 ms (quick) / +-16000 ms (thorough) around epoch 0, all 301 New Years 1900..2200, leap-day boundaries and sampled day/second boundaries is converted both ways through the real functions (exhaustive per window), plus 10^5/10^6 uniform instants, all microsecond phases of 2 ms windows, formatted strings in all supported spellings and decimal-year triples; each call is checked against an integer-arithmetic oracle.",
     "level_note": "Trusted: CPython datetime integer arithmetic. The 9.5e12 integer-ms domain is sampled outside the exhaustive windows.",
 }
 
@@ -426,7 +426,7 @@ def boundaries(tier, rng):
 def run(ctx):
     install(ctx)
     thorough = ctx.tier == "thorough"
-    W = 2000 if thorough else 200
+    W = 16000 if thorough else 200
     rng0 = numpy.random.default_rng([ctx.seed, 15])       # same boundary list in all shards
     bl = boundaries(ctx.tier, rng0)
     ci = 0
@@ -447,7 +447,7 @@ def run(ctx):
                     ex_strings(ctx, m)
                     ctx.nt(digest(("str", m)))
     # uniform instants
-    nu = (1000000 if thorough else 100000) // ctx.nshards
+    nu = (8000000 if thorough else 100000) // ctx.nshards
     r = ctx.rng("c15uniform")
     ms = r.integers(LO_MS, HI_MS, nu)
     tu = _tu()
@@ -470,7 +470,7 @@ def run(ctx):
     ctx.nt_bulk(digest(("uniform", ctx.seed, ctx.shard, ctx.nshards)), nt)
     ctx.sample({"uniform_instants": nu, "examples_ms": ms[:5], "examples": [str(ms_to_dt(x)) for x in ms[:3]]})
     # decimal years: direct inverse calls on a grid of decimal years
-    for j in range((20000 if thorough else 2000) // ctx.nshards):
+    for j in range((160000 if thorough else 2000) // ctx.nshards):
         y = float(r.uniform(1900, 2200))
         ex_decinv(ctx, y, "datetime" if j % 2 else "epoch")
         ctx.count(1)
